@@ -122,6 +122,26 @@ Proof.
   rewrite H. destruct (S (length (ftext items)) - cost items) as [|f] eqn:Ef; [lia|]. cbn [CommaRewrite.lex]. rewrite app_nil_r. apply apply_plain_all.
 Qed.
 
+(* a character at which no token starts, behind a readable prefix with free spacing (a number or operator name at the
+   end of the prefix being followed by at least one space): the tokenizer reports an error *)
+Theorem tokenize_unknown_char_flex (items : list (token D * nat)) (s : str) :
+  Forall flexable (map fst items) -> gaps_ok items ->
+  (forall t n, last items (TOpen, 0) = (t, n) -> items <> [] -> needs_term t = true -> 1 <= n) ->
+  unknown_start tb is_literal s ->
+  tokenize C tb is_literal (ftext items ++ s) = Err E_TOKENIZE.
+Proof.
+  intros HF Hg Hl Hs. rewrite (tokenize_factors C tb is_literal).
+  destruct s as [|c tl]; [destruct Hs|]. destruct Hs as (Hc & Hlit & Hf & Hv). destruct (special_false c Hc) as (H1 & H2 & H3 & H4 & H5).
+  pose proof (ftext_len items HF) as Hlen.
+  assert (Hlast : forall t n, last items (TOpen, 0) = (t, n) -> items <> [] -> needs_term t = true -> tstart (spaces n ++ c :: tl)).
+  { intros t n E Hne Hn. specialize (Hl t n E Hne Hn). destruct n as [|n]; [lia|]. right. exists SPACE, (spaces n ++ c :: tl). split; reflexivity. }
+  pose proof (lex_flex (c :: tl) items (S (length (ftext items ++ c :: tl)) - cost items) HF Hg (fun _ => I) Hlast) as H.
+  replace (cost items + (S (length (ftext items ++ c :: tl)) - cost items)) with (S (length (ftext items ++ c :: tl))) in H by (rewrite app_length; lia).
+  rewrite H. destruct (S (length (ftext items ++ c :: tl)) - cost items) as [|f] eqn:Ef; [rewrite app_length in Ef; cbn [length] in Ef; lia|].
+  rewrite lex_cons, H1, H2, H3, H4, H5, Hlit, Hf, Hv. rewrite app_nil_r.
+  destruct (apply_plain (map fst items) [] (Some E_TOKENIZE) [] 0%Z) as [d' Hp]. rewrite app_nil_r in Hp. rewrite Hp. reflexivity.
+Qed.
+
 (* the spaced rendering of LexSpaced is the instance with one space everywhere *)
 Lemma stext_is_ftext (ts : list (token D)) : stext C tb ts = ftext (map (fun t => (t, 1)) ts).
 Proof. induction ts as [|t ts IH]; [reflexivity|]. unfold stext in *. cbn [flat_map map ftext]. rewrite IH, <- app_assoc. reflexivity. Qed.
